@@ -86,7 +86,7 @@ let flags_out lk wh ta tb da db absent (la : S.event list) (lb : S.event list) (
   let fl = ref [] in
   (match wh with Some e when S.has_unprefixed_one_sided da db e -> fl := "UnprefixedFieldAppliedToBothTypes" :: !fl | _ -> ());
   if absent then fl := "AbsentLinkGroupedAsNull" :: !fl;
-  if lk = S.PrecededBy && Stdlib.List.exists S.preceded_known (S.make_groups la lb) then fl := "PrecededByBlockedByEarlyA" :: !fl;
+  ignore lk;
   if not (S.conjunctive_where da db wh ta tb) then fl := "CrossTypeOrNot" :: !fl;
   if Stdlib.List.exists (fun e -> not (S.time_ok e)) (la @ lb) then fl := "TimeNotU64Ordered" :: !fl;
   if Stdlib.List.exists (fun s -> Stdlib.List.exists (fun s' -> S.link_alias s s') texts) texts then fl := "LinkTextAliasesInteger" :: !fl;
